@@ -335,6 +335,7 @@ def build_tree(snap, desc, wsabs, fphost, regex):
                     n["haslive"] = bool(C.get("hasLive"))
                     n["live"] = C.get("live")
                     n["livecalc"] = C.get("liveCalc") or C.get("live")
+                    n["srcvid"] = C.get("vid")
                     items.append(("src",))
                 elif a["label"] == "dist":
                     isarg = i < nargs
@@ -636,6 +637,7 @@ class ModelHistory:
         self.trees = {}          # record index -> (root, nodes, order)
         self.problems = []       # harness-level problems (unparsable output ...)
         self.outside = None      # (reason, record index) when the model stops following the history
+        self.shared = []         # record indices of invocations whose tree has package nodes sharing a checkout step
         self.build()
 
     def hexl(self, hx_):
@@ -643,6 +645,28 @@ class ModelHistory:
 
     def node_name(self, k, n):
         return "h%d_k%d_n%d" % (self.h.hid, k, self.lab.get("id", n["id"]))
+
+    def src_label(self, n):
+        """r_src: identity of the node's checkout step = its workspace path (the builder keys __srcBuildIds and
+        the was-run flag of checkout steps by it); a node without own checkout gets a label that nobody shares"""
+        if n["has_src"] and n["srcpath"]:
+            return self.lab.get("src", "checkout:" + n["srcpath"])
+        return self.lab.get("src", "no-checkout:" + n["id"])
+
+    def check_shared(self, k, order):
+        """package nodes that share one checkout step must repeat the same attributes of it (Spec.src_consistent);
+        returns the shared workspaces"""
+        bypath = {}
+        for n in order:
+            if n["has_src"] and n["srcpath"]:
+                bypath.setdefault(n["srcpath"], []).append(n)
+        shared = {p_: v for p_, v in bypath.items() if len(v) > 1}
+        for p_, v in sorted(shared.items()):
+            attrs = {(n["haslive"], n["live"], n["livecalc"], n.get("srcid"), n.get("srcvid")) for n in v}
+            if len(attrs) > 1:
+                self.problems.append(("shared-checkout-attributes-differ", k,
+                                      {"checkout": p_, "nodes": [n["stack"] for n in v], "attributes": sorted(map(repr, attrs))}))
+        return shared
 
     def emit_tree(self, k, root, order, ref):
         done = set()
@@ -664,9 +688,9 @@ class ModelHistory:
                 else:
                     items = "(IDep %s %s %d %s)" % (self.node_name(k, it[1]), L.B(it[2]), it[3], items)
             mask = L.lst([L.B(it[4]) for it in n["items"] if it[0] == "dep"]) if any(it[0] == "dep" for it in n["items"]) else "(@nil bool)"
-            rec = ("{| r_id := %d; r_vid := %d; r_core := %d; r_match := %s; r_haslive := %s; r_live := %s; r_livecalc := %s; "
+            rec = ("{| r_id := %d; r_src := %d; r_vid := %d; r_core := %d; r_match := %s; r_haslive := %s; r_live := %s; r_livecalc := %s; "
                    "r_srcid := %s; r_fp := %s; r_argmask := %s |}") % (
-                self.lab.get("id", n["id"]), self.lab.get("vid", n["vid"]), self.lab.get("core", n["core"]), L.B(n["match"]),
+                self.lab.get("id", n["id"]), self.src_label(n), self.lab.get("vid", n["vid"]), self.lab.get("core", n["core"]), L.B(n["match"]),
                 L.B(n["haslive"]),
                 "(Some %s)" % self.hexl(n["live"]) if n["live"] else "None",
                 "(Some %s)" % self.hexl(n["livecalc"]) if n["livecalc"] else "None",
@@ -716,18 +740,13 @@ class ModelHistory:
                 break
             ref = h.refs[step["state"]]
             root, nodes, order = build_tree(snap, h.states[step["state"]], rec["wsabs"], rec["fphost"], rec["regex"])
-            # the builder keys checkout state (__srcBuildIds, _wasAlreadyRun) by the checkout step's workspace;
-            # the model keys it by package node: two package nodes sharing one checkout step (variants that
-            # differ only after checkout) are outside what the model states -> follow the history up to here only
-            srcs = {}
-            for n in order:
-                if n["has_src"] and n["srcpath"]:
-                    srcs.setdefault(n["srcpath"], set()).add(n["id"])
-            if any(len(v) > 1 for v in srcs.values()):
-                self.outside = ("shared-checkout", k)
-                break
             self.trees[k] = (root, nodes, order)
             self.emit_tree(k, root, order, ref)
+            # the builder keys checkout state (__srcBuildIds, _wasAlreadyRun) by the checkout step's workspace, and so
+            # does the model (r_src): package nodes sharing one checkout step (variants that differ only after
+            # checkout) carry the same label
+            if self.check_shared(k, order):
+                self.shared.append(k)
             fl = h.flags[step["ws"]]
             cfg = "(cfgm %s %s %s %s %s)" % (coq_mode(step["mode"]), L.B("download" in fl), L.B("upload" in fl),
                                             L.B(step["upload"]), L.B(step["force"]))
@@ -736,11 +755,17 @@ class ModelHistory:
 
     def expect(self, k, rec, root, nodes, order, ref):
         evs, counters, err = parse_output(rec["out"])
-        bysrc = {n["srcpath"]: n for n in order if n["srcpath"]}
+        # checkout steps: by workspace (CHECKOUT lines) and by package name (QUERY lines); nodes that share
+        # the step share the label
+        bysrc = {}
+        for n in order:
+            if n["srcpath"] and (n["has_src"] or n["srcpath"] not in bysrc):
+                bysrc[n["srcpath"]] = self.src_label(n)
         buildpaths = {n["buildpath"] for n in order if n["buildpath"]}
         byname = {}
         for n in order:
-            byname.setdefault(n["name"], []).append(n)
+            if n["has_src"]:
+                byname.setdefault(n["name"], set()).add(self.src_label(n))
         ambiguous = any(len(v) > 1 for v in byname.values())
         trace = []
         unknown = []
@@ -751,13 +776,13 @@ class ModelHistory:
                 if ambiguous:
                     continue
                 if key in byname:
-                    trace.append([1, self.lab.get("id", byname[key][0]["id"]), int(bool(flag))])
+                    trace.append([1, min(byname[key]), int(bool(flag))])
                 else:
                     unknown.append((kind, key))
                 continue
             if kind == "checkout":
                 if key in bysrc:
-                    trace.append([2, self.lab.get("id", bysrc[key]["id"])])
+                    trace.append([2, bysrc[key]])
                 else:
                     unknown.append((kind, key))
                 continue
@@ -832,7 +857,7 @@ def show_trace(tr, names):
 def compare(mh, model_obs):
     """-> list of (record index, what, detail) where model and implementation disagree"""
     diffs = []
-    names = {v: k[1] for k, v in mh.lab.d.items() if k[0] == "id"}
+    names = {v: k[1] for k, v in mh.lab.d.items() if k[0] in ("id", "src")}
     if len(model_obs) != len(mh.expected):
         return [(None, "number-of-invocations", "%d vs %d" % (len(model_obs), len(mh.expected)))]
     for mo, ex in zip(model_obs, mh.expected):
@@ -1160,6 +1185,48 @@ def load_corpus():
     return out
 
 
+def directed_histories():
+    """hand-written histories that every run executes (like the corpus, but built from code).
+
+    shared-checkout-two-wrong-predictions: `lib` is consumed twice below the root, without and with the
+    variable OPTV that only its build step reads: two package nodes (dist/lib/1, dist/lib/2), ONE checkout
+    step (src/lib/1).  The uploader publishes everything; then the live-build-id translations of the root's
+    and of lib's sources are both replaced by wrong ids.  The downloader (fresh workspace, --download=yes)
+    predicts both wrongly and finds that out in two separate restarts of one invocation (the second one when
+    the first of the two nodes that share lib's checkout is cooked); after that every Build-Id is right again
+    and the root package is downloaded, nothing is built."""
+    def cp(script):
+        return 'cp -a "$1"/. . 2>/dev/null || true\n' + script
+
+    def recipe(nm, bvars, checkout, deps=None, root=False):
+        r = {"buildVars": list(bvars), "buildScript": proj.script_for(nm + "b", "build", bvars),
+             "packageVars": [], "packageScript": proj.script_for(nm + "p", "package", []) + 'cp -a "$1"/. . 2>/dev/null || true\n'}
+        if checkout:
+            r["checkoutSCM"] = {"scm": "import", "url": "src/" + nm}
+            r["_sources"] = {"file.txt": "content of %s\n" % nm, "sub/other.txt": "other\n"}
+            r["buildScript"] = cp(r["buildScript"])
+        if deps:
+            r["depends"] = deps
+        if root:
+            r["root"] = True
+        return r
+    desc = {"recipes": {ROOT: recipe(ROOT, [], True, ["lib", "mid"], root=True),
+                        "mid": recipe("mid", [], False, [{"name": "lib", "environment": {"OPTV": "fast"}}]),
+                        "lib": recipe("lib", ["OPTV"], True)},
+            "classes": {}, "config": {"bobMinimumVersion": "0.25"},
+            "default": {"environment": {"GLOBAL1": "1"}, "whitelist": ["FPHOST"]}}
+    run = lambda ws, mode, upload=False: {"op": "run", "ws": ws, "state": 0, "mode": mode, "upload": upload, "force": False}
+    prog = [run("A", "no", True),
+            {"op": "tamper", "kind": "wronglive", "target": ROOT, "value": "11" * 20},
+            {"op": "tamper", "kind": "wronglive", "target": ROOT + "/lib", "value": "22" * 20},
+            run("B", "yes"), run("B", "yes"),
+            {"op": "tamper", "kind": "wipeB"},
+            run("B", "deps"), run("B", "forced")]
+    return [("shared-checkout-two-wrong-predictions",
+             {"states": [desc], "prog": prog, "fph": {"A": "h1", "B": "h1"},
+              "flags": {"A": ["download", "upload"], "B": ["download", "upload"]}})]
+
+
 def history_from_json(hid, c):
     return History(hid, c["states"], copy.deepcopy(c["prog"]), c["fph"], c["flags"])
 
@@ -1201,6 +1268,9 @@ def process(ctx, hs):
                 ctx.count("tamper:" + r["step"]["kind"])
         if mh.outside:
             ctx.count("histories-followed-partly:" + mh.outside[0])
+        if mh.shared:
+            ctx.count("histories-with-shared-checkout")
+            ctx.count("invocations-with-shared-checkout", len(mh.shared))
         for p in mh.problems:
             ctx.tie_broken("c07-" + p[0], {"history": h.to_json(), "step": p[1], "detail": p[2]})
         try:
@@ -1218,9 +1288,12 @@ def process(ctx, hs):
                                 "history": h.to_json()})
             else:
                 ctx.validated(nruns)
+                if mh.shared:
+                    ctx.count("histories-with-shared-checkout:validated")
+                    ctx.count("invocations-with-shared-checkout:validated", len(mh.shared))
         if len(ctx.cov["samples"]) < 5 and mh.expected:
             e = mh.expected[-1]
-            names = {v: k_[1] for k_, v in mh.lab.d.items() if k_[0] == "id"}
+            names = {v: k_[1] for k_, v in mh.lab.d.items() if k_[0] in ("id", "src")}
             ctx.sample({"invocation": h.records[e["k"]]["step"], "decisions": show_trace(e["trace"], names), "counters": e["counters"]})
         idc.extend(ids_cases(h))
     # Build-Ids of real runs recomputed by the Ids model
@@ -1244,11 +1317,14 @@ def run(ctx):
                 "one file archive: uploads, all download modes, -f, archives without download flag, different FPHOST "
                 "fingerprints, manipulated archives (wrong live-build-id mapping, corrupt artifact, stripped audit trail, "
                 "deleted and foreign artifacts), wiped workspaces; a case is one bob invocation; distinct by (history, step, "
-                "workspace, state, mode, decision trace)")
+                "workspace, state, mode, decision trace); the corpus and one directed history (two package nodes sharing one "
+                "checkout step, two wrong live-build-id predictions found in two restarts of one invocation) run first")
     ctx.assumptions += [
         "scripts are deterministic functions of their declared inputs (generated scripts are, by construction)",
         "directory hashes identify tree contents (C11); the model uses contents where Bob stores result hashes",
         "the build step is folded into its package node: its own skip/re-run decisions are C01's, not compared here",
+        "a checkout step is identified by its workspace path (r_src); package nodes that share it repeat its attributes "
+        "(hypothesis src_consistent; checked by the harness on every tree: differing attributes are reported as a harness problem)",
         "honest archive = every well-formed artifact stored under a Build-Id was produced by a Bob build of a package with that "
         "Build-Id; a well-formed forged artifact under the right id is undetectable by construction (exercised, model-only)",
         "equal Build-Id => equal result is the hypothesis ids_sound of the theorems; its encoding half is proved in "
@@ -1283,6 +1359,9 @@ def run(ctx):
     for name, c in load_corpus():
         hs.append(history_from_json(len(hs), c))
         ctx.count("corpus")
+    for name, c in directed_histories():
+        hs.append(history_from_json(len(hs), c))
+        ctx.count("directed:" + name)
     n_hist = ctx.n(6, 200)           # about 30 % of the generated projects are rejected by the parser (cheaply)
     if os.environ.get("C07_HISTORIES") is not None:      # development aid: C07_HISTORIES=0 runs the corpus only
         n_hist = int(os.environ["C07_HISTORIES"])
@@ -1303,7 +1382,7 @@ if __name__ == "__main__":
             print("\n".join(l for l in r["out"].split("\n") if LINE_RE.match(l) or "Restart" in l or "rror" in l or "Duration" in l))
     print(h.error)
     for mh, ob in zip(mhs, obs):
-        names = {v: k_[1] for k_, v in mh.lab.d.items() if k_[0] == "id"}
+        names = {v: k_[1] for k_, v in mh.lab.d.items() if k_[0] in ("id", "src")}
         if ob:
             for e, o in zip(mh.expected, ob):
                 print(e["k"], "impl ", e["outcome"], show_trace(e["trace"], names))
